@@ -29,6 +29,10 @@ type params struct {
 	Tag      uint16 `json:"tag,omitempty"`     // tag of the flushed request (default 10); 0xffff = NOTAG used as an ordinary tag
 	Then     string `json:"then,omitempty"`    // "idle" | "own": a further flush that must be answered while R is still held
 	Other    bool   `json:"other_traffic,omitempty"`
+	// Recycled: the process-wide message cache really recycles objects (by
+	// default every message object is fresh), and a flush naming its own tag
+	// has been served before, so the Tflush objects used later are recycled ones.
+	Recycled bool `json:"recycled_after_self_flush,omitempty"`
 }
 
 func mkfs() *memfs.FS {
@@ -124,6 +128,9 @@ func gated(p params) *fw.Scenario {
 	if p.Other {
 		name += "-other"
 	}
+	if p.Recycled {
+		name += "-recycled-after-self-flush"
+	}
 	return &fw.Scenario{Name: name, Params: p, New: func() (func(), func(*vsched.Execution) ([]fw.Issue, string)) {
 		var s *sess.Sess
 		var fs *memfs.FS
@@ -137,9 +144,17 @@ func gated(p params) *fw.Scenario {
 		base, gateThread, otherHandle, setupFrames := 0, -1, -2, 0
 		body := func() {
 			fs = mkfs()
+			if p.Recycled {
+				vsched.FreshCaches = false
+				defer func() { vsched.FreshCaches = true }()
+			}
 			s = sess.Connect(fs, sess.NewServer(fs), "c")
 			s.Version(8192)
 			s.Attach(1)
+			if p.Recycled {
+				s.OK(rawpeer.Tflush(3, 3))
+				s.OK(rawpeer.Tflush(4, 4))
+			}
 			var R refcodec.Msg
 			switch p.Request {
 			case "read":
@@ -330,6 +345,7 @@ func run(ctx *fw.Ctx, rep *fw.Report) {
 		calls int
 	}{{"read", 1}, {"write", 1}, {"walk2", 2}, {"renameat", 2}}
 	// NOTAG used as an ordinary tag by the flushed request
+	scs = append(scs, gated(params{Request: "read", GateCall: 1, Flushes: 1, Recycled: true}), gated(params{Request: "walk2", GateCall: 2, Flushes: 2, Recycled: true}))
 	scs = append(scs, gated(params{Request: "read", GateCall: 1, Flushes: 1, Tag: 0xffff}), gated(params{Request: "walk2", GateCall: 2, Flushes: 1, Tag: 0xffff}))
 	// flushes of an idle / the own tag while another request is held and being flushed
 	for _, then := range []string{"idle", "own"} {
